@@ -26,6 +26,20 @@ from .values import (
 from .source import repo, FuncInfo
 
 
+def timed_check(solver, ms):
+    """solver.check() that really stops: z3's string solver does not always honour its `timeout` parameter"""
+    import threading
+    solver.set("timeout", int(ms))
+    tm = threading.Timer(ms / 1000.0 + 1.5, solver.ctx.interrupt)
+    tm.start()
+    try:
+        return solver.check()
+    except z3.Z3Exception:
+        return z3.unknown
+    finally:
+        tm.cancel()
+
+
 # ---------------------------------------------------------------------------
 # control-flow signals
 
@@ -452,12 +466,11 @@ class Ex:
 
     def _check(self, extra, timeout):
         self.sync_consts()
-        self.solver.set("timeout", timeout)
         self.solver.push()
         try:
             for e in extra:
                 self.solver.add(e)
-            return self.solver.check()
+            return timed_check(self.solver, timeout)
         finally:
             self.solver.pop()
 
@@ -521,10 +534,9 @@ class Ex:
         if r == z3.unknown:
             sl = _slice(list(self.solver.assertions()), neg)
             s1 = z3.Solver()
-            s1.set("timeout", 5000)
             s1.add(sl)
             s1.add(neg)
-            r1 = s1.check()
+            r1 = timed_check(s1, 5000)
             if r1 == z3.unsat:
                 r, backend = z3.unsat, "z3-sliced"      # a subset of the hypotheses already suffices
             elif r1 == z3.sat:
@@ -539,10 +551,9 @@ class Ex:
                     model = {"cvc5_model": txt, "candidate_from_sliced_query": candidate}
         if r == z3.unknown:
             s2 = z3.Solver()
-            s2.set("timeout", self.VC_TIMEOUT_MS)
             s2.add(self.solver.assertions())
             s2.add(neg)
-            r = s2.check()
+            r = timed_check(s2, self.VC_TIMEOUT_MS)
             backend = "z3-oneshot"
             if r == z3.sat:
                 model = self._model_of(s2.model())
@@ -571,8 +582,7 @@ class Ex:
         c = concretize(v)
         if not is_sym(c):
             return c
-        self.solver.set("timeout", self.BRANCH_TIMEOUT_MS)
-        if self.solver.check() != z3.sat:
+        if timed_check(self.solver, self.BRANCH_TIMEOUT_MS) != z3.sat:
             return None
         mv = self.solver.model().eval(v.t, model_completion=True)
         if self._check([v.t != mv], self.BRANCH_TIMEOUT_MS) == z3.unsat:
@@ -590,7 +600,7 @@ class Ex:
         self.solver.push()
         try:
             while True:
-                if self.solver.check() != z3.sat:
+                if timed_check(self.solver, self.BRANCH_TIMEOUT_MS) != z3.sat:
                     break
                 mv = self.solver.model().eval(v.t, model_completion=True)
                 vals.append(mv)
@@ -720,11 +730,10 @@ class Ex:
         return out
 
     def _extract_model(self, neg):
-        self.solver.set("timeout", self.VC_TIMEOUT_MS)
         self.solver.push()
         try:
             self.solver.add(neg)
-            if self.solver.check() != z3.sat:
+            if timed_check(self.solver, self.VC_TIMEOUT_MS) != z3.sat:
                 return None
             m = self.solver.model()
             out = {}
@@ -2189,8 +2198,7 @@ def explore(unit, max_paths=4000):
             res.errors.append("recursion error in executor")
         # vacuity: the hypotheses of this path must be satisfiable
         if ex.obligations:
-            ex.solver.set("timeout", Ex.BRANCH_TIMEOUT_MS)
-            if ex.solver.check() == z3.unsat:
+            if timed_check(ex.solver, Ex.BRANCH_TIMEOUT_MS) == z3.unsat:
                 res.vacuous_paths += 1
                 for ob in ex.obligations:
                     if ob.status == "discharged":
